@@ -780,3 +780,7 @@ def _sccs(graph):
         if v not in index:
             strong(v)
     return out
+
+
+LEVEL = LEVEL + ''
+TECHNIQUE = 'operand-sensitive interprocedural must-pass-through of finiteness / precision / zero-divisor / domain guards; reviewed panic-edge inventory of the parsers with bounds provenance (find / rfind); grouped unwrap inventory with range arguments; loop-exit and recursion base-path analysis'
